@@ -15,3 +15,6 @@ open GoSQLXModel
 #print axioms Lex.spans_slice
 #print axioms Lex.tokenize_spell2
 #print axioms Props.C05.reference_grammar_spans
+#print axioms Lex.lexLoop_prefix_err
+#print axioms Lex.unterminated_literal_located
+#print axioms Props.C05.unterminated_literal_located_at_its_quote
